@@ -6,7 +6,7 @@ from .engine import Engine
 from .values import Refuse
 
 
-def subverify(src, prop, module, keys, replay=None, why='', timeout_s=20):
+def subverify(src, prop, module, keys, replay=None, why='', timeout_s=20, prefer_cvc5=None):
     reg = Registry(prop)
     module.build(reg, src)
     reg.extra_checks[:] = []
@@ -20,6 +20,11 @@ def subverify(src, prop, module, keys, replay=None, why='', timeout_s=20):
             eng.verify_fn(key)
         except Refuse as e:
             rows.append(dict(name=key + '#refused', ok=False, undecided=True, backend='z3', detail=f"refused: {e}"))
+    if prefer_cvc5:
+        import re
+        for o in eng.obligations:
+            if re.search(prefer_cvc5, o.name) and o.meta.get('kind') != 'vacuity-neg':
+                o.meta['prefer'] = 'cvc5'
     smt.discharge(eng.obligations, timeout_s=timeout_s)
     bad = []
     for o in eng.obligations:
